@@ -511,13 +511,13 @@ int main(int argc, char **argv)
 		run_case(i, seed);
 	mon_printf("STAT method=%s cases=%llu posts=%llu handler_entries=%llu remote_posts=%llu owner_posts=%llu cases_with_overlapping_posts=%llu "
 		   "obligations=%llu discharged=%llu unregistered_while_pending=%llu events_registered=%llu kick_object_recreated=%llu "
-		   "noise_writes=%llu noise_handler_entries=%llu tasks_registered=%ld tasks_ran=%ld failed_registrations_under_fault=%ld quit_and_reenter=%ld final_quiescences=%llu shim_quiescences=%llu time_advances=%llu perturb_yield=%llu perturb_sleep=%llu threads_created=%llu injected=%llu violations=%d\n",
+		   "noise_writes=%llu noise_handler_entries=%llu tasks_registered=%ld tasks_ran=%ld failed_registrations_under_fault=%ld quit_and_reenter=%ld final_quiescences=%llu shim_quiescences=%llu time_advances=%llu perturb_yield=%llu perturb_sleep=%llu priority_changes=%llu priority_deferrals=%llu threads_created=%llu injected=%llu violations=%d\n",
 		   g_method, (unsigned long long)S.cases, (unsigned long long)S.posts, (unsigned long long)S.entries,
 		   (unsigned long long)S.remote, (unsigned long long)S.self, (unsigned long long)S.overlaps_cases,
 		   (unsigned long long)S.obligations, (unsigned long long)S.discharged, (unsigned long long)S.unreg_pending,
 		   (unsigned long long)S.regs, (unsigned long long)S.zero_cross, (unsigned long long)noise_writes, (unsigned long long)noise_entries, (long)tasks_registered, (long)tasks_ran, (long)failed_regs, (long)quit_reenters, (unsigned long long)S.quiescences,
 		   (unsigned long long)vt_stats.quiescences, (unsigned long long)vt_stats.time_advances,
-		   (unsigned long long)vt_stats.perturb_yield, (unsigned long long)vt_stats.perturb_sleep,
+		   (unsigned long long)vt_stats.perturb_yield, (unsigned long long)vt_stats.perturb_sleep, (unsigned long long)vt_stats.pct_changes, (unsigned long long)vt_stats.pct_deferrals,
 		   (unsigned long long)vt_stats.threads_created, (unsigned long long)vt_stats.injected, mon_viol_total);
 	mon_printf("DONE\n");
 	return 0;
